@@ -51,6 +51,22 @@ fn main() {
             print!("{}", String::from_utf8_lossy(&spec.source));
             0
         }
+        "dump" => {
+            // write the files of in-process groups 0..--ip-groups into --work (coverage tooling)
+            let corpus = sim_harvest::harvest(&args.repo);
+            let _ = std::fs::create_dir_all(&args.work);
+            for idx in 0..args.ip_groups {
+                let spec = sim_group::derive_spec(
+                    args.seed,
+                    sim_group::Tier::InProc,
+                    idx,
+                    &corpus,
+                    sim_group::Shape { plans: 2 },
+                );
+                let _ = std::fs::write(args.work.join(format!("p{idx}.g")), &spec.source);
+            }
+            0
+        }
         other => {
             eprintln!("HARNESS-ERROR: unknown command {other:?}");
             2
